@@ -39,8 +39,9 @@ LETTERS = [
 # plain Fragment/Molecule (the iterator's default classes): single-end reads matched by equal start OR equal end,
 # so a molecule can grow at its end and a later-starting fragment can still join it through its end coordinate
 PLAIN_LETTERS = [
-    (0, 10, 1), (0, 41, 1), (0, 49, 1), (10, 49, 1), (41, 49, 1), (45, 49, 1), (62, 100, 1),
-    (5, 15, 2), (41, 62, 2), (41, 80, 2),
+    ('chr1', 0, 10, 1), ('chr1', 0, 41, 1), ('chr1', 0, 49, 1), ('chr1', 10, 49, 1), ('chr1', 41, 49, 1), ('chr1', 45, 49, 1),
+    ('chr1', 62, 100, 1), ('chr1', 5, 15, 2), ('chr1', 41, 62, 2), ('chr1', 41, 80, 2),
+    ('chr2', 0, 10, 1), ('chr2', 10, 49, 1),      # same coordinates as chr1 letters, on another contig
 ]
 PLAIN_BASE = 1000
 
@@ -48,7 +49,7 @@ PLAIN_BASE = 1000
 def bounds(tier):
     return {'max_fragments': 5 if tier == 'quick' else 6, 'letters': LETTERS, 'sites': S, 'cache_sizes': [100, 1000],
             'classes': ['nla', 'chic0', 'chic15'] if tier == 'thorough' else ['nla', 'chic15'],
-            'eject_every': 'None,0..n', 'pooling': [0, 1], 'plain_letters(start,end,cell)': PLAIN_LETTERS,
+            'eject_every': 'None,0..n', 'pooling': [0, 1], 'plain_letters(contig,start,end,cell)': PLAIN_LETTERS,
             'plain_max_fragments': 5 if tier == 'quick' else 6}
 
 
@@ -57,9 +58,9 @@ def build_plain(word):
     from gen.reads import make_read
     out = []
     for i, li in enumerate(word):
-        s, e, cell = PLAIN_LETTERS[li]
+        contig, s, e, cell = PLAIN_LETTERS[li]
         n = e - s
-        r = make_read(HDR, f'f{i}', 'A' * n, 'chr1', PLAIN_BASE + s, f'{n}M', paired=False,
+        r = make_read(HDR, f'f{i}', 'A' * n, contig, PLAIN_BASE + s, f'{n}M', paired=False,
                       tags={'SM': f'LIB_{cell}', 'RX': 'AAA', 'BC': 'ACGTACGT', 'bi': cell})
         out.append([r, None])
     return out
@@ -94,7 +95,7 @@ def orders(multiset, kind='site'):
     """all delivery orders of the multiset: sorted by (contig, delivery coordinate); every order among ties"""
     groups = {}
     for li in multiset:
-        key = deliv(li) if kind == 'site' else ('chr1', PLAIN_LETTERS[li][0])
+        key = deliv(li) if kind == 'site' else (PLAIN_LETTERS[li][0], PLAIN_LETTERS[li][1])
         groups.setdefault(key, []).append(li)
     keys = sorted(groups)
     per = [sorted(set(itertools.permutations(groups[k]))) for k in keys]
